@@ -37,12 +37,15 @@ pub struct Diff {
 #[derive(Debug, Clone, Copy)]
 pub struct Kinds {
 	pub missing: &'static str,
+	/// like `missing`, but the absent value is an empty list (FACTS.md §4.3: duke's tree cannot tell an
+	/// attribute with an empty table from an absent one)
+	pub missing_empty: &'static str,
 	pub extra: &'static str,
 	pub different: &'static str,
 }
 
-pub const READ_KINDS: Kinds = Kinds { missing: "missing-in-duke", extra: "extra-in-duke", different: "different" };
-pub const WRITE_KINDS: Kinds = Kinds { missing: "missing-in-output", extra: "extra-in-output", different: "different" };
+pub const READ_KINDS: Kinds = Kinds { missing: "missing-in-duke", missing_empty: "missing-in-duke(empty-list)", extra: "extra-in-duke", different: "different" };
+pub const WRITE_KINDS: Kinds = Kinds { missing: "missing-in-output", missing_empty: "missing-in-output(empty-list)", extra: "extra-in-output", different: "different" };
 
 /// Structural difference of two JSON values. Objects are compared key by key, lists of equal length
 /// element by element; lists of different length give one `missing`/`extra` entry at `path/#` (their
@@ -71,7 +74,8 @@ fn walk(e: &Value, g: &Value, kinds: Kinds, path: &mut String, gpath: &mut Strin
 				match (a.get(k), b.get(k)) {
 					(Some(x), Some(y)) => walk(x, y, kinds, path, gpath, out),
 					(Some(x), None) => {
-						out.push(Diff { path: path.clone(), gpath: gpath.clone(), kind: kinds.missing, expected: Some(x.clone()), got: None })
+						let kind = if x.as_array().map_or(false, |l| l.is_empty()) { kinds.missing_empty } else { kinds.missing };
+						out.push(Diff { path: path.clone(), gpath: gpath.clone(), kind, expected: Some(x.clone()), got: None })
 					}
 					(None, Some(y)) => {
 						out.push(Diff { path: path.clone(), gpath: gpath.clone(), kind: kinds.extra, expected: None, got: Some(y.clone()) })
@@ -264,8 +268,92 @@ pub fn sample_inputs() -> Vec<(String, Vec<u8>)> {
 				v.push((format!("sample/{name}[{en}]"), bytes));
 			}
 		}
+		// duke's reader rejects positions equal to code_length in some places, empty member names
+		// and class file versions above 67.0
+		// (see the triage); the `~adapted` variant keeps everything else of such a sample reachable
+		// for the comparison
+		let mut adapted = facts.clone();
+		avoid_code_end(&mut adapted);
+		avoid_empty_member_names(&mut adapted);
+		avoid_future_version(&mut adapted);
+		if &adapted != facts {
+			for (en, enc) in &encs {
+				if let Ok(bytes) = assemble(&adapted, enc) {
+					v.push((format!("sample/{name}~adapted[{en}]"), bytes));
+				}
+			}
+		}
 	}
 	v
+}
+
+/// duke rejects class file versions above 67.0 (`Version::V23`): such a version becomes 67.0.
+pub fn avoid_future_version(class: &mut Value) {
+	let major = class.get("version").and_then(|v| v.get(0)).and_then(Value::as_u64).unwrap_or(0);
+	let minor = class.get("version").and_then(|v| v.get(1)).and_then(Value::as_u64).unwrap_or(0);
+	if major > 67 || (major == 67 && minor > 0) {
+		class["version"] = json!([67, 0]);
+	}
+}
+
+/// Renames fields and methods whose name is the empty string to `_empty`.
+pub fn avoid_empty_member_names(class: &mut Value) {
+	for key in ["fields", "methods"] {
+		if let Some(Value::Array(l)) = class.get_mut(key) {
+			for m in l {
+				if m.get("name") == Some(&json!("")) {
+					m["name"] = json!("_empty");
+				}
+			}
+		}
+	}
+}
+
+/// Rewrites facts so that no exception table row ends at `len(insns)` (the end moves one instruction
+/// back; the row is dropped if it would become empty) and no local variable / localvar_target row
+/// *starts* at `len(insns)` (dropped).
+pub fn avoid_code_end(v: &mut Value) {
+	match v {
+		Value::Array(a) => a.iter_mut().for_each(avoid_code_end),
+		Value::Object(m) => {
+			if let (Some(n), true) = (m.get("insns").and_then(Value::as_array).map(|l| l.len() as u64), m.contains_key("exceptions")) {
+				if let Some(Value::Array(rows)) = m.get_mut("exceptions") {
+					rows.retain_mut(|r| {
+						if r.get("end").and_then(Value::as_u64) == Some(n) {
+							if r.get("start").and_then(Value::as_u64).map_or(false, |s| s + 1 < n) {
+								r["end"] = json!(n - 1);
+								true
+							} else {
+								false
+							}
+						} else {
+							true
+						}
+					});
+				}
+				if let Some(Value::Object(attrs)) = m.get_mut("attrs") {
+					for key in ["LocalVariableTable", "LocalVariableTypeTable"] {
+						if let Some(Value::Array(rows)) = attrs.get_mut(key) {
+							rows.retain(|r| r.get("start").and_then(Value::as_u64) != Some(n));
+						}
+					}
+					for key in ["RuntimeVisibleTypeAnnotations", "RuntimeInvisibleTypeAnnotations"] {
+						if let Some(Value::Array(annos)) = attrs.get_mut(key) {
+							for a in annos {
+								if let Some(Value::Array(rows)) = a.get_mut("target").and_then(|t| t.get_mut("table")) {
+									rows.retain(|r| r.get("start").and_then(Value::as_u64) != Some(n));
+								}
+							}
+						}
+					}
+				}
+			}
+			for (_, x) in m.iter_mut() {
+				avoid_code_end(x);
+			}
+		}
+		_ => {}
+	}
 }
 
 // ---------------------------------------------------------------------------------------------
@@ -275,6 +363,8 @@ pub fn sample_inputs() -> Vec<(String, Vec<u8>)> {
 pub struct Group {
 	pub count: usize,
 	pub examples: Vec<String>,
+	/// all ids of the group, in input order
+	pub ids: Vec<String>,
 	/// (size in bytes, id) of the smallest class in the group
 	pub smallest: Option<(usize, String)>,
 }
@@ -282,6 +372,7 @@ pub struct Group {
 impl Group {
 	fn add(&mut self, id: &str, size: usize) {
 		self.count += 1;
+		self.ids.push(id.to_string());
 		if self.examples.len() < 3 {
 			self.examples.push(id.to_string());
 		}
@@ -290,7 +381,7 @@ impl Group {
 		}
 	}
 	fn to_json(&self) -> Value {
-		json!({"count": self.count, "examples": self.examples, "smallest": self.smallest.as_ref().map(|(s, i)| json!({"id": i, "bytes": s}))})
+		json!({"count": self.count, "examples": self.examples, "ids": self.ids, "smallest": self.smallest.as_ref().map(|(s, i)| json!({"id": i, "bytes": s}))})
 	}
 }
 
